@@ -544,6 +544,10 @@ class Inliner:
             return [s]
         # `return H(...)`: the helper's returns become the caller's returns
         if isinstance(s, ast.Return) and s.value is call:
+            # a helper that can fall off its end returns None there: the caller returns at that point too
+            from .core import block_terminates
+            if not block_terminates(body):
+                body = body + [ast.Return(value=ast.Constant(value=None), lineno=call.lineno, col_offset=0)]
             return prelude + body
         # `x = H(...)`: the helper's returns assign x
         if isinstance(s, ast.Assign) and s.value is call and len(s.targets) == 1:
